@@ -183,16 +183,116 @@ Proof.
 Qed.
 Lemma op_mod_Ts_tr : Trunc_rem in_i16 op_mod_Ts.
 Proof. intros n d H Hd. apply tr_of_val; [assumption|apply op_mod_Ts_val; assumption]. Qed.
-(* double operator%(double) on integer-valued doubles of magnitude <= 2^53 *)
+(* template operator%(XXX) at XXX = float, integer-valued |l| <= 2^24 *)
+Definition in_f24 (z : Z) : Prop := - 16777216 <= z <= 16777216.
+Lemma op_mod_Tf_tr : Trunc_rem in_f24 op_mod_Tf.
+Proof. intros n d _ Hd. apply tr_of_val; [assumption|apply op_mod_I_val]. Qed.
+
+(* --- the narrow-return overloads for EVERY divisor: the truncated remainder converted to the return type
+       (two's-complement conversion, as for any C integer narrowing); it is the remainder itself when that fits *)
+Lemma to_i64_0 : to_i64 0 = 0. Proof. reflexivity. Qed.
+
+Lemma op_mod_ul_wrap : forall n d, in_u64 d -> d <> 0 -> op_mod_ul n d = to_i64 (Z.rem n d).
+Proof.
+  intros n d H Hd. unfold op_mod_ul, mpz_tdiv_ui.
+  zcase n; [rewrite rem0; reflexivity|]. cbv zeta.
+  destruct (tspec n d Hd) as (E & B & S). unfold tquo, trem in *.
+  assert (Sg : (0 < n /\ 0 <= Z.rem n d) \/ (n < 0 /\ Z.rem n d <= 0)) by nia.
+  remember (Z.rem n d) as r. clear Heqr E S.
+  destruct (Z.eqb_spec (Z.abs r) 0) as [Ez|Ez].
+  - replace r with 0 by lia. reflexivity.
+  - destruct (Z.ltb_spec n 0).
+    + rewrite (Z.abs_neq r) by lia. cint. lia.
+    + rewrite (Z.abs_eq r) by lia. reflexivity.
+Qed.
+Lemma op_mod_u_wrap : forall n d, in_u32 d -> d <> 0 -> op_mod_u n d = to_i32 (Z.rem n d).
+Proof.
+  intros n d H Hd. unfold op_mod_u. pose proof (u32_u64 d H). rewrite to_u64_id by assumption.
+  rewrite op_mod_ul_wrap by assumption. pose proof (rem_small n d Hd). rewrite to_i64_id by (cint; lia). reflexivity.
+Qed.
+Lemma op_mod_us_wrap : forall n d, in_u16 d -> d <> 0 -> op_mod_us n d = to_i16 (Z.rem n d).
+Proof.
+  intros n d H Hd. unfold op_mod_us. assert (in_u64 d) by (cint; lia). rewrite to_u64_id by assumption.
+  rewrite op_mod_ul_wrap by assumption. pose proof (rem_small n d Hd). rewrite to_i64_id by (cint; lia). reflexivity.
+Qed.
+
+(* --- double operator%(double): l = K / 2^s, integer part t = trunc(l), 1 <= |t| < 2^64 *)
+Lemma round53_small : forall z, Z.abs z <= 9007199254740992 -> round53 z = z.
+Proof.
+  intros z H. unfold round53. cbv zeta. destruct (Z.ltb_spec (Z.abs z) 9007199254740992); [reflexivity|].
+  assert (A : Z.abs z = 9007199254740992) by lia.
+  destruct z as [|p|p]; cbn [Z.abs] in A; try discriminate; injection A as ->; vm_compute; reflexivity.
+Qed.
+
+(* round53 is a nearest 53-bit-significand value: a multiple of the unit 2^k in the last place, at most half a unit away *)
+Definition Round53_nearest_stmt : Prop :=
+  forall z, 9007199254740992 <= Z.abs z ->
+    let k := Z.log2 (Z.abs z) - 52 in
+    1 <= k /\ (exists m, round53 z = Z.sgn z * (m * 2 ^ k) /\ 2 ^ 52 <= m <= 2 ^ 53) /\ 2 * Z.abs (round53 z - z) <= 2 ^ k.
+Lemma round53_nearest : Round53_nearest_stmt.
+Proof.
+  intros z Hz k.
+  assert (L : 53 <= Z.log2 (Z.abs z)) by (apply (Z.log2_le_mono (2 ^ 53)); exact Hz).
+  assert (K1 : 1 <= k) by (subst k; lia). split; [exact K1|].
+  unfold round53. cbv zeta. destruct (Z.ltb_spec (Z.abs z) 9007199254740992); [lia|]. fold k.
+  remember (Z.abs z) as a.
+  assert (P : 0 < 2 ^ k) by (apply Z.pow_pos_nonneg; lia).
+  assert (Hh : 2 ^ k = 2 * 2 ^ (k - 1)).
+  { replace k with (Z.succ (k - 1)) at 1 by lia. rewrite Z.pow_succ_r by lia. reflexivity. }
+  pose proof (Z.div_mod a (2 ^ k) ltac:(lia)) as DM. pose proof (Z.mod_pos_bound a (2 ^ k) P) as MB.
+  destruct (Z.log2_spec a ltac:(lia)) as (Lo & Hi).
+  assert (Ek : Z.log2 a = 52 + k) by (subst k; lia).
+  rewrite Ek in Lo, Hi. rewrite Z.pow_add_r in Lo by lia.
+  replace (Z.succ (52 + k)) with (53 + k) in Hi by lia. rewrite Z.pow_add_r in Hi by lia.
+  remember (a / 2 ^ k) as q. remember (a mod 2 ^ k) as r. remember (2 ^ (k - 1)) as h. remember (2 ^ k) as u.
+  change (2 ^ 52) with 4503599627370496 in *. change (2 ^ 53) with 9007199254740992 in *.
+  assert (Q : 4503599627370496 <= q < 9007199254740992) by nia.
+  assert (Sz : z = Z.sgn z * a) by (subst a; destruct z; cbn [Z.sgn Z.abs]; lia).
+  assert (S1 : Z.sgn z = 1 \/ Z.sgn z = -1) by (destruct z; cbn [Z.sgn Z.abs] in *; lia).
+  destruct (orb (h <? r) (andb (r =? h) (Z.odd q))) eqn:Eo.
+  - assert (R : h <= r).
+    { apply Bool.orb_true_iff in Eo. destruct Eo as [Eo|Eo]; [apply Z.ltb_lt in Eo; lia|].
+      apply Bool.andb_true_iff in Eo. destruct Eo as (Eo & _). apply Z.eqb_eq in Eo. lia. }
+    split; [exists (q + 1); split; [reflexivity|lia]|]. destruct S1 as [S1|S1]; rewrite S1 in *; nia.
+  - assert (R : r <= h).
+    { apply Bool.orb_false_iff in Eo. destruct Eo as (Eo & _). apply Z.ltb_ge in Eo. lia. }
+    split; [exists q; split; [reflexivity|lia]|]. destruct S1 as [S1|S1]; rewrite S1 in *; nia.
+Qed.
+
+Definition Percent_double_stmt : Prop :=
+  forall n K s, 0 <= s -> let t := Z.quot K (2 ^ s) in t <> 0 -> Z.abs t < W64 ->
+    op_mod_dfrac n K s = round53 (to_i64 (Z.rem n t)).
+Lemma percent_double : Percent_double_stmt.
+Proof.
+  intros n K s Hs t Ht Hb. subst t. unfold op_mod_dfrac.
+  assert (P : 0 < 2 ^ s) by (apply Z.pow_pos_nonneg; lia).
+  destruct (Z.ltb_spec 0 K).
+  - rewrite <- Z.quot_div_nonneg by lia.
+    rewrite Z.abs_eq in Hb by (apply Z.quot_pos; lia).
+    rewrite to_u64_id by (cint; split; [apply Z.quot_pos; lia|lia]).
+    rewrite op_mod_ul_wrap; [reflexivity|cint; split; [apply Z.quot_pos; lia|lia]|assumption].
+  - rewrite <- Z.quot_div_nonneg by lia. rewrite Z.quot_opp_l by lia.
+    assert (Q : Z.quot K (2 ^ s) <= 0).
+    { pose proof (Z.quot_pos (- K) (2 ^ s) ltac:(lia) P) as Q0. rewrite Z.quot_opp_l in Q0 by lia. lia. }
+    rewrite Z.abs_neq in Hb by lia.
+    rewrite to_u64_id by (cint; lia).
+    rewrite op_mod_ul_wrap by (cint; lia). rewrite Z.rem_opp_r by lia. reflexivity.
+Qed.
+
+Lemma op_mod_d_wrap : forall n d, d <> 0 -> Z.abs d < W64 -> op_mod_d n d = round53 (to_i64 (Z.rem n d)).
+Proof.
+  intros n d Hd Hb. unfold op_mod_d. pose proof (percent_double n d 0 ltac:(lia)) as P. cbv zeta in P.
+  change (2 ^ 0) with 1 in P. rewrite Z.quot_1_r in P. apply P; assumption.
+Qed.
+Lemma op_mod_dx_wrap : forall n K, Z.quot K 16 <> 0 -> Z.abs (Z.quot K 16) < W64 ->
+  op_mod_dx n K = round53 (to_i64 (Z.rem n (Z.quot K 16))).
+Proof. intros n K H1 H2. unfold op_mod_dx. apply (percent_double n K 4 ltac:(lia)); assumption. Qed.
+
+(* integer-valued doubles of magnitude <= 2^53: everything is exact *)
 Lemma op_mod_d_val : forall n d, in_d53 d -> d <> 0 -> op_mod_d n d = Z.rem n d.
 Proof.
-  intros n d H Hd. unfold op_mod_d. rewrite <- (Z.rem_abs_r n d Hd).
-  pose proof (rem_small n (Z.abs d) ltac:(lia)) as B. rewrite Z.abs_involutive in B.
-  assert (U : in_u64 (Z.abs d)) by (cint'; lia).
-  assert (R : in_i64 (Z.rem n (Z.abs d))) by (cint'; lia).
-  destruct (Z.ltb_spec 0 d).
-  - replace (to_u64 d) with (Z.abs d) by (cint'; lia). apply op_mod_ul_val; (assumption || lia).
-  - replace (to_u64 (- d)) with (Z.abs d) by (cint'; lia). apply op_mod_ul_val; (assumption || lia).
+  intros n d H Hd. rewrite op_mod_d_wrap by (assumption || (cint'; lia)).
+  pose proof (rem_small n d Hd). rewrite to_i64_id by (cint'; lia). apply round53_small. cint'. lia.
 Qed.
 Lemma op_mod_d_tr : Trunc_rem in_d53 op_mod_d.
 Proof. intros n d H Hd. apply tr_of_val; [assumption|apply op_mod_d_val; assumption]. Qed.
